@@ -337,6 +337,7 @@ _EXH = [
     ["close", 1], ["open", 1, "r"], ["open", 1, "a"], ["open", 0, "same"],
     ["put", 0, 0, 8], ["put", 0, 1, 0], ["put", 0, 4, 1], ["put", 0, 5, 8],
     ["put", 1, 0, 2], ["put", 1, 1, 8], ["put", 1, 5, 4], ["put", 1, 4, 1], ["put", 0, 6, 1],
+    ["get", 0, 0], ["get", 1, 1],      # a read between two writes moves the stream position
 ]
 
 
@@ -593,7 +594,7 @@ LEGS = [
     Leg(
         "raw_exh", check_raw, classify_raw, enumerate=enum_raw, exhaustive=True,
         shards={"quick": 32, "thorough": 64},
-        rule="all op sequences of length<=4 (quick) / <=5 (thorough) over 16 letters {close,open r,open a}x{h0,h1} + open() without a mode + 9 puts (dup, 256-byte key, empty key, 9 kB values), file created with mode x or w; non-trivial = append-reopen after a put, or two handles with different views, or a failed put; distinct = op-sequence hash",
+        rule="all op sequences of length<=4 (quick) / <=5 (thorough) over 18 letters {close,open r,open a}x{h0,h1} + open() without a mode + 2 gets + 9 puts (dup, 256-byte key, empty key, 9 kB values), file created with mode x or w; non-trivial = append-reopen after a put, or two handles with different views, or a failed put; distinct = op-sequence hash",
     ),
     Leg(
         "raw_rand", check_raw, classify_raw, strategy=strat_raw,
